@@ -103,7 +103,7 @@ def handle (cmd : String) (args : List String) : Option String :=
     let [rem, ops, gid] ← parseInts? hd | none
     if rem < 0 ∨ gid < 0 then none else
     let r := closureGo (← compsList g) rem.toNat gid.toNat (← natList s, ops)
-    some s!"{joinNats (sortedBelow 70000 r.1)} {r.2}"
+    some s!"{joinNats (r.1.toArray.qsort (· < ·)).toList} {r.2}"
   | _ => none
 
 end FontVerif.Drv.C17
